@@ -10,9 +10,12 @@ Holds(o) == /\ o.err = ""
             /\ o.struct_ok
             /\ (o.jvp = "skip" \/ o.jvp = "raised" \/ o.jvp = o.jvp_want)
             /\ o.flat_ok /\ o.unflat_ok /\ o.commute_ok
+            /\ o.val_ok                       \* the value computed while differentiating is the value of the plain call
+\* C06 on containers: value transparency only
+Transparent(o) == o.err # "" \/ o.val_ok
 Init == i = 1
 Next == /\ i <= Len(Obs)
-        /\ (IF Holds(Obs[i]) THEN PrintT(<<"ACCEPT", Obs[i].id>>) ELSE TRUE)
+        /\ (IF (IF IOEnv.PROP = "C06" THEN Transparent(Obs[i]) ELSE Holds(Obs[i])) THEN PrintT(<<"ACCEPT", Obs[i].id>>) ELSE TRUE)
         /\ i' = i + 1
 Spec == Init /\ [][Next]_i
 =============================================================================
